@@ -98,6 +98,7 @@ func (p c07) Run(c *core.Ctx) {
 	cfg := gen.DefaultFlow()
 	cfg.StartNotFirst = true
 	cfg.DupTitles = true
+	cfg.EmptyTitle = true
 	cfg.VisitLines = r.Bool()
 	cfg.WJump = 12
 	cfg.WStop = 3
